@@ -32,6 +32,8 @@ pub struct Profile {
     pub tracing: bool,
     /// Force "no failing outcome anywhere" (C08 differential).
     pub no_failures: bool,
+    /// Names / doc strings with quotes, markup, backslashes and non-ASCII characters (reporters).
+    pub spicy: bool,
 }
 
 impl Profile {
@@ -53,6 +55,7 @@ impl Profile {
             small_limit_pm: 650,
             tracing: false,
             no_failures: false,
+            spicy: false,
         }
     }
 
@@ -104,6 +107,14 @@ impl Profile {
                 p.hooks_pm = 850;
                 p.faults_pm = 1000;
             }
+            "C14" => {
+                p.spicy = true;
+                p.hooks_pm = 700;
+                p.retries_pm = 600;
+                p.parser_err_pm = 300;
+                p.undefined_pm = 500;
+                p.outlines_pm = 300;
+            }
             "C20" => {
                 p.tracing = true;
                 p.hooks_pm = 700;
@@ -138,7 +149,7 @@ fn gen_steps(c: &mut Ctx<'_>, id: &str, n: usize) -> Vec<StepSpec> {
             } else {
                 Def::One
             };
-            let doc = (c.doc_strings && c.r.chance(1, 6)).then(|| format!("doc of {id}t{i}\nline <2> & \"x\""));
+            let doc = (c.doc_strings && c.r.chance(1, 6)).then(|| format!("doc of {id}t{i}\nline < 2 > & \"x\""));
             StepSpec { kw, text: format!("{id}t{i} runs"), def, doc }
         })
         .collect()
@@ -161,7 +172,7 @@ fn gen_scenario(c: &mut Ctx<'_>, id: &str, max_steps: usize, serial: bool, retry
         let k = c.r.usize(1, 3);
         (0..k).map(|j| format!("e{j}")).collect()
     });
-    let spice = if c.spicy_names { *c.r.pick(SPICE) } else { "" };
+    let spice = if c.spicy_names && !outline { *c.r.pick(SPICE) } else { "" };
     ScenarioSpec { name: format!("{id}{spice}"), tags, steps, examples }
 }
 
@@ -204,7 +215,7 @@ pub fn gen_plan(seed: u64, prof: &Profile) -> Plan {
     // ---- features
     let mut features = Vec::new();
     let mut budget = max_sc;
-    let mut c = Ctx { r: &mut r, p: prof, undefined, doc_strings: false, spicy_names: false };
+    let mut c = Ctx { r: &mut r, p: prof, undefined, doc_strings: prof.spicy, spicy_names: prof.spicy };
     let _ = c.p;
     for fi in 0..n_feat {
         let fid = ident("F", fi);
@@ -271,10 +282,12 @@ pub fn gen_plan(seed: u64, prof: &Profile) -> Plan {
             let nrbg = c.r.usize(0, max_bg);
             let rbg = gen_steps(&mut c, &format!("{rid}bg"), nrbg);
             let scs = mk_scs(&mut c, &rid, per[ri + 1]);
-            rules.push(RuleSpec { name: format!("{rid} rule"), tags: rtags, background: rbg, scenarios: scs });
+            let rspice = if prof.spicy { *c.r.pick(SPICE) } else { "" };
+            rules.push(RuleSpec { name: format!("{rid} rule{rspice}"), tags: rtags, background: rbg, scenarios: scs });
         }
         let path = c.r.chance(3, 4).then(|| format!("/sim/features/{fid}.feature"));
-        features.push(FeatureSpec { name: format!("{fid} feature"), path, tags: ftags, background, scenarios, rules });
+        let fspice = if prof.spicy { *c.r.pick(SPICE) } else { "" };
+        features.push(FeatureSpec { name: format!("{fid} feature{fspice}"), path, tags: ftags, background, scenarios, rules });
     }
     drop(c);
 
